@@ -112,7 +112,7 @@ def main(tier=None, replay=None):
         x0 = np.asarray(orbit.initial_state, dtype=float)
         f0 = np.asarray(em.dynsys.rhs(0.0, x0))
         label = f"earth-moon|L{li}|{fam}|{sorted(kw.items())}"
-        t = cs.trace(label, {"monodromy_fixes_velocity": -40, "symplectic": -50, "det": -40, "reciprocal_pairs": -40},
+        t = cs.trace(label, {"monodromy_fixes_velocity": -70, "symplectic": -50, "det": -40, "reciprocal_pairs": -40},
                      {"family": fam, "kw": kw, "L": li})
         ck.count(("monodromy", label), True)
         scale = max(1.0, float(np.max(np.abs(M))))
@@ -121,6 +121,25 @@ def main(tier=None, replay=None):
         cs.obs(t, "det", abs(np.linalg.det(M) - 1.0) / scale)
         ev = np.linalg.eigvals(M)
         cs.obs(t, "reciprocal_pairs", max(min(abs(1 / a - b) / max(1.0, abs(1 / a)) for b in ev) for a in ev))
+    # history: a period preset close to (but not equal to) the true one, then correct(): the orbit must end up with
+    # the corrected period and its monodromy must be that of the corrected orbit
+    for fam, kw, li in orbs[:2]:
+        L = em.get_libration_point(li)
+        ref = L.create_orbit(fam, **kw)
+        ref.correct()
+        T_true = float(ref.period)
+        orbit = L.create_orbit(fam, **kw)
+        orbit.period = float(f"{T_true:.5g}")          # a 5-significant-digit tabulated value
+        res = orbit.correct()
+        label = f"earth-moon|L{li}|{fam}|preset-period-then-correct"
+        t = cs.trace(label, {"period_is_twice_half_period": -130, "monodromy_fixes_velocity": -70},
+                     {"family": fam, "kw": kw, "L": li, "history": "preset-period"})
+        ck.count(("monodromy-history", label), True)
+        cs.obs(t, "period_is_twice_half_period", abs(float(orbit.period) - 2.0 * float(res.half_period)))
+        M = np.asarray(orbit.monodromy)
+        x0 = np.asarray(orbit.initial_state, dtype=float)
+        f0 = np.asarray(em.dynsys.rhs(0.0, x0))
+        cs.obs(t, "monodromy_fixes_velocity", float(np.max(np.abs(M @ f0 - f0))) / max(1.0, float(np.max(np.abs(M)))))
     cs.decide(key_fn=lambda t, n: ("_compute_stm|forward=-1|" + n if (t["data"] or {}).get("forward") == -1
                                    else ("orbit.monodromy|" + n if "family" in (t["data"] or {}) else "_compute_stm|" + n)))
     cs.selftest()
